@@ -17,7 +17,7 @@ use crate::join::JoinHandle;
 use crate::scoped::spawn_unsafe;
 use crate::sync::Mutex;
 use crate::sync::{AtomicOption, Blocker};
-use crate::yield_now::yield_with;
+use crate::yield_now::{get_co_para, yield_with};
 
 use may_queue::mpsc::Queue;
 
@@ -139,6 +139,9 @@ impl EventSource for EventSender<'_> {
 
     fn yield_back(&self, _cancel: &'static Cancel) {
         // ignore the cancel to let the bottom half get processed
+        // but consume the result that `yield_with` stores for a canceled coroutine,
+        // or it stays in the (pooled) coroutine and fails an io call of its next user
+        get_co_para();
     }
 }
 
